@@ -275,6 +275,12 @@ def command(rng):
             parts += ["P2"]
         if form == "zero":
             parts += [rng.choice(["I0 J0", "R0", "I0", "I0.0 J-0"])]
+        if rng.random() < 0.12:
+            # an offset / radius word without a value, in place of or after a valued one
+            k_ = rng.choice("IJR")
+            if rng.random() < 0.5:
+                parts = [p for p in parts if p[0].upper() != k_]
+            parts.append(k_)
         if rng.random() < 0.1:
             parts = [p.lower() for p in parts]
         rng.shuffle(parts)
